@@ -88,8 +88,9 @@ miri k3 "" mem K3 3 "$SEED" &
 miri k7 "" mem K7 2 "$SEED" &
 miri thr-safe "-Zmiri-many-seeds=0..32 -Zmiri-preemption-rate=0.1" mem-threads 2 "$SEED" safe &
 miri thr-all "-Zmiri-many-seeds=0..16 -Zmiri-preemption-rate=0.1" mem-threads 2 "$SEED" all &
+miri corners "" mem-corners &
 wait
-for name in seq1 seq2 seq3 k1 k3 k7 thr-safe thr-all; do
+for name in seq1 seq2 seq3 k1 k3 k7 thr-safe thr-all corners; do
   rc=$(cat "$OUT/miri-$name.rc")
   n=$(grep -o '[0-9]* runs' "$OUT/miri-$name.log" | awk '{s+=$1} END {print s+0}')
   miri_runs=$((miri_runs + n))
